@@ -9,7 +9,7 @@ rows = []
 for mp in sorted(glob.glob(os.path.join(V, "seeded", "*", "meta.json"))):
     m = json.load(open(mp))
     own = m["checks"].get(m["property"], {})
-    verdict = "caught (exit 1)" if own.get("exit") == 1 else ("inconclusive (exit 2)" if own.get("exit") == 2 else "missed (exit 0)")
+    verdict = "caught (exit 1)" if own.get("exit") == 1 and own.get("violations", 0) > 0 else ("inconclusive (exit 2)" if own.get("exit") == 2 else "missed (exit 0)")
     others = [p for p in m.get("caught_by", []) if p != m["property"]]
     rows.append((m["id"], m["property"], verdict, ",".join(others), (m.get("summary") or "").replace("|", "/").replace("\n", " ")[:150], (own.get("first") or "").replace("|", "/")[:140]))
 n = len(rows)
